@@ -7,9 +7,25 @@ use chrono::DateTime;
 use std::{
     fs::File,
     io::{stderr, Write},
+    time::SystemTime,
 };
 
 use super::{Matcher, MatcherIO, WalkEntry};
+
+/// The modification time as `-ls` shows it; the bare number of seconds for the times no
+/// calendar date stands for (`DateTime::from(SystemTime)` panics on those).
+fn format_modification_time(time: SystemTime) -> String {
+    let seconds = match time.duration_since(SystemTime::UNIX_EPOCH) {
+        Ok(after) => i64::try_from(after.as_secs()).ok(),
+        Err(e) => i64::try_from(e.duration().as_secs())
+            .ok()
+            .map(|before| -before),
+    };
+    match seconds.and_then(|seconds| DateTime::from_timestamp(seconds, 0)) {
+        Some(utc) => utc.format("%b %e %H:%M").to_string(),
+        None => seconds.map_or_else(|| "?".to_string(), |seconds| seconds.to_string()),
+    }
+}
 
 #[cfg(unix)]
 fn format_permissions(mode: uucore::libc::mode_t) -> String {
@@ -175,8 +191,7 @@ impl Ls {
         let size = metadata.size();
         let last_modified = {
             let system_time = metadata.modified().unwrap();
-            let now_utc: DateTime<chrono::Utc> = system_time.into();
-            now_utc.format("%b %e %H:%M")
+            format_modification_time(system_time)
         };
         let path = file_info.path().to_string_lossy();
 
@@ -244,8 +259,7 @@ impl Ls {
         let size = metadata.file_size();
         let last_modified = {
             let system_time = metadata.modified().unwrap();
-            let now_utc: DateTime<chrono::Utc> = system_time.into();
-            now_utc.format("%b %e %H:%M")
+            format_modification_time(system_time)
         };
         let path = file_info.path().to_string_lossy();
 
